@@ -22,6 +22,7 @@ import (
 	"sort"
 	"strings"
 	"sync"
+	"sync/atomic"
 	"testing"
 	"unicode"
 	"unicode/utf8"
@@ -331,6 +332,7 @@ type c43Word struct {
 	known     bool   // value derivable from the documentation
 	value     string // the value of the word (seed) when known
 	baseStart int    // offset of the base name part in text
+	lastStart int    // offset of the last part (primary) of the word in text
 	shape     string
 }
 
@@ -353,16 +355,16 @@ func c43Words(dv c43Dv, base string) []c43Word {
 		rest := dv.typed // "/" or "/sub/"
 		if c43Typable(rest+base, false) {
 			out = append(out, c43Word{text: "~" + rest + base, leaf: c43Bare, known: c43KnownBare(rest + base), value: val,
-				baseStart: 1 + len(rest), shape: "~bare"})
+				baseStart: 1 + len(rest), lastStart: 1, shape: "~bare"})
 		}
 		if c43Typable(base, true) {
 			out = append(out, c43Word{text: "~" + rest + c43SQText(base, false), leaf: c43SQ, swallow: true, known: true, value: val,
-				baseStart: 1 + len(rest), shape: "~bare+sq-open"})
+				baseStart: 1 + len(rest), lastStart: 1 + len(rest), shape: "~bare+sq-open"})
 		}
 		out = append(out, c43Word{text: "~" + rest + c43DQText(base, false), leaf: c43DQ, swallow: true, known: true, value: val,
-			baseStart: 1 + len(rest), shape: "~bare+dq-open"})
+			baseStart: 1 + len(rest), lastStart: 1 + len(rest), shape: "~bare+dq-open"})
 		out = append(out, c43Word{text: "~" + rest + c43DQText(base, true), leaf: c43DQ, known: true, value: val,
-			baseStart: 1 + len(rest), shape: "~bare+dq-closed"})
+			baseStart: 1 + len(rest), lastStart: 1 + len(rest), shape: "~bare+dq-closed"})
 		return out
 	}
 	if c43Typable(full, false) && !dv.hostile {
@@ -388,22 +390,22 @@ func c43Words(dv c43Dv, base string) []c43Word {
 		if !dv.hostile && c43KnownBare(dv.typed) {
 			if c43Typable(base, true) {
 				out = append(out, c43Word{text: dv.typed + c43SQText(base, false), leaf: c43SQ, swallow: true, known: true, value: val,
-					baseStart: len(dv.typed), shape: "bare+sq-open"})
+					baseStart: len(dv.typed), lastStart: len(dv.typed), shape: "bare+sq-open"})
 			}
 			out = append(out, c43Word{text: dv.typed + c43DQText(base, false), leaf: c43DQ, swallow: true, known: true, value: val,
-				baseStart: len(dv.typed), shape: "bare+dq-open"})
+				baseStart: len(dv.typed), lastStart: len(dv.typed), shape: "bare+dq-open"})
 			out = append(out, c43Word{text: dv.typed + c43DQText(base, true), leaf: c43DQ, known: true, value: val,
-				baseStart: len(dv.typed), shape: "bare+dq-closed"})
+				baseStart: len(dv.typed), lastStart: len(dv.typed), shape: "bare+dq-closed"})
 		}
 		if dv.hostile && strings.HasSuffix(dv.typed, "/") && c43Typable(base, false) {
 			// 'd e'/base : quoted directory name, bare rest
 			d := strings.TrimSuffix(dv.typed, "/")
 			q := c43SQText(d, true)
 			out = append(out, c43Word{text: q + "/" + base, leaf: c43Bare, known: c43KnownBare(base), value: val,
-				baseStart: len(q) + 1, shape: "sq-closed+bare"})
+				baseStart: len(q) + 1, lastStart: len(q), shape: "sq-closed+bare"})
 			q = c43DQText(d, true)
 			out = append(out, c43Word{text: q + "/" + c43SQText(base, false), leaf: c43SQ, swallow: true, known: true, value: val,
-				baseStart: len(q) + 1, shape: "dq-closed+bare+sq-open"})
+				baseStart: len(q) + 1, lastStart: len(q) + 1, shape: "dq-closed+bare+sq-open"})
 		}
 	}
 	return out
@@ -713,7 +715,15 @@ type c43DirSpec struct {
 	big   bool
 }
 
-func c43DirCases(root string, d c43DirSpec) []c43Case {
+// c43Group is one typed word in one directory; its cases are the wrappers x
+// cursor positions.
+type c43Group struct {
+	word c43Word
+	dv   *c43Dv
+	base string
+}
+
+func c43DirGroups(root string, d c43DirSpec) []c43Group {
 	abs := root + "/" + d.name + "/"
 	dvs := []c43Dv{
 		{kind: "cwd", typed: "", value: "", ents: d.ents},
@@ -731,7 +741,7 @@ func c43DirCases(root string, d c43DirSpec) []c43Case {
 			}
 		}
 	}
-	var cases []c43Case
+	var groups []c43Group
 	for di := range dvs {
 		dv := &dvs[di]
 		if d.big && (dv.kind == "updown" || dv.kind == "abs") {
@@ -740,20 +750,29 @@ func c43DirCases(root string, d c43DirSpec) []c43Case {
 		}
 		for _, base := range c43Prefixes(dv.ents) {
 			for _, w := range c43Words(*dv, base) {
-				for _, wi := range d.wraps {
-					wr := c43Wraps[wi]
-					if wr.kind == c43Cmd && !strings.Contains(w.value, "/") {
-						continue // a command head without slash is searched in $PATH: part C
-					}
-					for _, p := range c43Dots(w) {
-						cases = append(cases, c43Case{buf: wr.pre + w.text + wr.post, dot: len(wr.pre) + p, wi: wi, word: w,
-							start: len(wr.pre), dv: dv, base: base})
-					}
-				}
+				groups = append(groups, c43Group{w, dv, base})
 			}
 		}
 	}
-	return cases
+	return groups
+}
+
+// c43GroupCases calls f for every case of the group.
+func c43GroupCases(g c43Group, wraps []int, f func(k int, cs c43Case)) int {
+	k := 0
+	dots := c43Dots(g.word)
+	for _, wi := range wraps {
+		wr := c43Wraps[wi]
+		if wr.kind == c43Cmd && !strings.Contains(g.word.value, "/") {
+			continue // a command head without slash is searched in $PATH: part C
+		}
+		for _, p := range dots {
+			f(k, c43Case{buf: wr.pre + g.word.text + wr.post, dot: len(wr.pre) + p, wi: wi, word: g.word,
+				start: len(wr.pre), dv: g.dv, base: g.base})
+			k++
+		}
+	}
+	return k
 }
 
 func c43ShownText(it complete.Result, i int) string {
@@ -781,7 +800,16 @@ func c43RunFileCase(c *vk.Ctx, l *vk.Local, w *c43Worker, order int64, cs c43Cas
 	}
 	pdot := cs.dot - cs.start
 	abut := pdot == 0 && len(cs.word.text) > 0
-	judgeSet := cs.word.known && !abut
+	// The seed is the word up to the end of the part (primary) the cursor is in;
+	// with the cursor in an earlier part of a compound word the documentation
+	// does not say what the typed prefix is: only soundness is judged then.
+	judgeSet := cs.word.known && (pdot > cs.word.lastStart || len(cs.word.text) == 0)
+	// an unterminated quote extends to the end of the buffer: the rest of the
+	// buffer is part of the typed string
+	base := cs.base
+	if cs.word.swallow {
+		base += wr.post
+	}
 	dotKind := "in"
 	if pdot == 0 {
 		dotKind = "start"
@@ -799,11 +827,11 @@ func c43RunFileCase(c *vk.Ctx, l *vk.Local, w *c43Worker, order int64, cs c43Cas
 	must := map[int]bool{}
 	if judgeSet {
 		for i, e := range cs.dv.ents {
-			if !strings.HasPrefix(e.name, cs.base) {
+			if !strings.HasPrefix(e.name, base) {
 				continue
 			}
 			// completion.d.elv: hidden files iff the base name starts with "."
-			if strings.HasPrefix(e.name, ".") != strings.HasPrefix(cs.base, ".") {
+			if strings.HasPrefix(e.name, ".") != strings.HasPrefix(base, ".") {
 				continue
 			}
 			v := cs.dv.value + e.name
@@ -823,9 +851,8 @@ func c43RunFileCase(c *vk.Ctx, l *vk.Local, w *c43Worker, order int64, cs c43Cas
 	}
 
 	if err != nil || res == nil {
-		if judgeSet && len(must) > 0 {
-			c43Report(order, "missing-candidate:no-completion", fmt.Sprintf("%s: Complete returned error %v, expected candidates for %d entries", desc(), err, len(must)), replay)
-		}
+		// the property only speaks about positions where completion is offered
+		w.nj["no_completion_offered"]++
 		l.Case(class + "/none")
 		return
 	}
@@ -875,10 +902,15 @@ func c43RunFileCase(c *vk.Ctx, l *vk.Local, w *c43Worker, order int64, cs c43Cas
 			} else {
 				want = append(want, wr.after...)
 			}
-			o, e, pan := w.eval(nb)
+			rr := w.evalCached(nb)
+			o, e, pan := rr.outs, rr.err, rr.pan
 			got, ok := c43Strs(o)
 			if pan != "" || e != nil || !ok || !c43EqStrs(got, want) {
-				c43Report(order, "completed-buffer-value-differs", fmt.Sprintf("%s: choosing candidate %q (insert %q over [%d,%d)) gives the buffer %q, which evaluates to %q, error %v %s; expected %q",
+				k := "other"
+				if f == t && f != cs.dot {
+					k = "inserted-away-from-cursor"
+				}
+				c43Report(order, "completed-buffer-value-differs:"+k, fmt.Sprintf("%s: choosing candidate %q (insert %q over [%d,%d)) gives the buffer %q, which evaluates to %q, error %v %s; expected %q",
 					desc(), shown, ins, f, t, nb, o, e, pan, want), replay)
 			}
 		}
@@ -892,14 +924,14 @@ func c43RunFileCase(c *vk.Ctx, l *vk.Local, w *c43Worker, order int64, cs c43Cas
 			switch {
 			case !strings.HasPrefix(v, cs.dv.value) || !c43HasEnt(cs.dv.ents, name):
 				k = "not-a-directory-entry"
-			case !strings.HasPrefix(name, cs.base):
+			case !strings.HasPrefix(name, base):
 				k = "without-typed-prefix"
 			case strings.HasPrefix(name, "."):
 				k = "hidden"
 			default:
 				k = "form"
 			}
-			c43Report(order, "extra-candidate:"+k, fmt.Sprintf("%s: offers %q (insert %q), which is not an entry of the directory starting with the typed base name %q", desc(), v, ins, cs.base), replay)
+			c43Report(order, "extra-candidate:"+k, fmt.Sprintf("%s: offers %q (insert %q), which is not an entry of the directory starting with the typed base name %q", desc(), v, ins, base), replay)
 			continue
 		}
 		covered[a.ent]++
@@ -946,13 +978,15 @@ func c43RunFileCase(c *vk.Ctx, l *vk.Local, w *c43Worker, order int64, cs c43Cas
 		for i := range cs.dv.ents {
 			if must[i] && covered[i] == 0 {
 				e := cs.dv.ents[i]
-				c43Report(order, "missing-candidate:"+c43NameClass(e), fmt.Sprintf("%s: the entry %q starts with the typed base name %q but is not offered (offered: %d items)", desc(), e.name, cs.base, len(res.Items)), replay)
+				c43Report(order, "missing-candidate:"+c43NameClass(e), fmt.Sprintf("%s: the entry %q starts with the typed base name %q but is not offered (offered: %d items)", desc(), e.name, base, len(res.Items)), replay)
 			}
 		}
 	} else if abut {
 		w.nj["not_judged_cursor_at_start_of_following_word"]++
-	} else {
+	} else if !cs.word.known {
 		w.nj["not_judged_set_for_raw_bareword"]++
+	} else {
+		w.nj["not_judged_set_for_cursor_in_earlier_part_of_compound_word"]++
 	}
 	var ks []string
 	for k := range insKinds {
@@ -984,6 +1018,446 @@ func c43EntNames(ents []c43Ent) string {
 		ns = append(ns, n)
 	}
 	return fmt.Sprintf("%q", ns)
+}
+
+// ---------------------------------------------------------------------------
+// Part V: variable names.  Part C: command names.
+
+var c43VarNames = []string{"ab", "a b", "a'b", "a\"b", "$a", "*", "~x", ".h", "é", "a#b", "a=b", "d", "-x", "a.b", "a\nb", "abc"}
+var c43NsM = []string{"pq", "p q", "p'q", ".r", "é", "r-s"}
+var c43NsSub = []string{"zy", "z z"}
+var c43NsHostile = []string{"k", "k l"} // members of the namespace "n s:"
+var c43EnvNames = []string{"C43_PLAIN", "c43.dot", "c43 sp", "c43-dash", "c43é"}
+var c43ExtNames = []string{"xab", "x y", "x'y", "x\"y", "$x", "*x", "~x", ".x", "xé", "x#y", "x=y", "-x", "x,y", "x<y", "x.z", "x+y"}
+var c43FnNames = []string{"fab", "f g", "f'g", "f\"g", "$f", "*f", "~f", ".f", "fé", "f#g", "f=g", "-f", "f,g", "f\ng", "f<g", "f>g", "f*g", "f^g"}
+var c43NsFns = []string{"pq", "p q"} // functions in the namespace "m:"
+
+func c43Q(s string) string { return c43SQText(s, true) }
+
+func c43VCSetup() string {
+	var sb strings.Builder
+	sb.WriteString("var c43v = ''\n")
+	for _, n := range c43VarNames {
+		fmt.Fprintf(&sb, "var %s = [%s]\n", c43Q(n), c43Q("v:"+n))
+	}
+	sb.WriteString("var m: = (ns [")
+	for _, n := range c43NsM {
+		fmt.Fprintf(&sb, " &%s=[%s]", c43Q(n), c43Q("v:m:"+n))
+	}
+	for _, n := range c43NsFns {
+		fmt.Fprintf(&sb, " &%s={|@a| put %s }", c43Q(n+"~"), c43Q("f:m:"+n))
+	}
+	sb.WriteString(" &sub:=(ns [")
+	for _, n := range c43NsSub {
+		fmt.Fprintf(&sb, " &%s=[%s]", c43Q(n), c43Q("v:m:sub:"+n))
+	}
+	sb.WriteString("])])\n")
+	sb.WriteString("var 'n s:' = (ns [")
+	for _, n := range c43NsHostile {
+		fmt.Fprintf(&sb, " &%s=[%s]", c43Q(n), c43Q("v:n s:"+n))
+	}
+	sb.WriteString("])\n")
+	for _, n := range c43FnNames {
+		fmt.Fprintf(&sb, "fn %s {|@a| put %s }\n", c43Q(n), c43Q("f:"+n))
+	}
+	return sb.String()
+}
+
+// what a qualified variable name of the fixture must evaluate to ("" = only has to resolve)
+func c43VarTags() map[string]string {
+	m := map[string]string{}
+	for _, n := range c43VarNames {
+		m[n] = "[" + c43TagRepr("v:"+n) + "]"
+	}
+	for _, n := range c43NsM {
+		m["m:"+n] = "[" + c43TagRepr("v:m:"+n) + "]"
+	}
+	for _, n := range c43NsSub {
+		m["m:sub:"+n] = "[" + c43TagRepr("v:m:sub:"+n) + "]"
+	}
+	for _, n := range c43NsHostile {
+		m["n s:"+n] = "[" + c43TagRepr("v:n s:"+n) + "]"
+	}
+	for _, n := range c43EnvNames {
+		m["E:"+n] = c43TagRepr("v:E:" + n)
+	}
+	for _, n := range c43ExtNames {
+		m["e:"+n+"~"] = ""
+	}
+	return m
+}
+
+func c43TagRepr(s string) string { return vals.ReprPlain(s) }
+
+// variable name characters that may follow $ unquoted (language.md, "Variable use")
+func c43VarBare(s string) bool {
+	for _, r := range s {
+		ok := 'a' <= r && r <= 'z' || 'A' <= r && r <= 'Z' || '0' <= r && r <= '9' || r == '-' || r == '_' || r == ':' || r == '~' ||
+			(r >= 0x80 && r != utf8.RuneError && unicode.IsPrint(r))
+		if !ok {
+			return false
+		}
+	}
+	return true
+}
+
+type c43VWrap struct {
+	pre, post, closer string
+	before, after     []string
+	sigil             bool
+}
+
+var c43VWraps = []c43VWrap{
+	{"put $", "", "", nil, nil, false},
+	{"put $@", "", "", nil, nil, true},
+	{"put x $", " y", "", []string{"x"}, []string{"y"}, false},
+	{"put (put $", ")", ")", nil, nil, false},
+	{"if $true { put $", " }", " }", nil, nil, false},
+	{"put [z $", "][1]", "][1]", nil, nil, false},
+}
+
+type c43NameWord struct {
+	text    string
+	quoted  bool
+	swallow bool
+	prefix  string // the typed (partial) qualified name
+	shape   string
+}
+
+func c43NameWords(p string) []c43NameWord {
+	var out []c43NameWord
+	if c43VarBare(p) {
+		out = append(out, c43NameWord{p, false, false, p, "bare"})
+	}
+	if c43Typable(p, true) {
+		out = append(out, c43NameWord{c43SQText(p, false), true, true, p, "sq-open"})
+		out = append(out, c43NameWord{c43SQText(p, true), true, false, p, "sq-closed"})
+	}
+	out = append(out, c43NameWord{c43DQText(p, false), true, true, p, "dq-open"})
+	out = append(out, c43NameWord{c43DQText(p, true), true, false, p, "dq-closed"})
+	return out
+}
+
+func c43RunePrefixes(names []string) []string {
+	seen := map[string]bool{}
+	var out []string
+	add := func(s string) {
+		if !seen[s] {
+			seen[s] = true
+			out = append(out, s)
+		}
+	}
+	add("")
+	for _, n := range names {
+		for i := 0; i < len(n); {
+			_, w := utf8.DecodeRuneInString(n[i:])
+			i += w
+			add(n[:i])
+		}
+	}
+	return out
+}
+
+func c43NsKind(ns string) string {
+	switch {
+	case ns == "":
+		return "none"
+	case ns == "E:" || ns == "e:":
+		return ns
+	case c43VarBare(ns):
+		return "plain"
+	}
+	return "hostile"
+}
+
+func c43ReprAll(vs []any) []string {
+	out := make([]string, len(vs))
+	for i, v := range vs {
+		out[i] = vals.ReprPlain(v)
+	}
+	return out
+}
+
+func c43RunVarCase(l *vk.Local, w *c43Worker, order int64, wi int, nw c43NameWord, pdot int, tags map[string]string) {
+	wr := c43VWraps[wi]
+	buf := wr.pre + nw.text + wr.post
+	dot := len(wr.pre) + pdot
+	replay := map[string]any{"buffer": buf, "dot": dot}
+	desc := fmt.Sprintf("buffer %q dot %d (typed variable name %q in %s style)", buf, dot, nw.prefix, nw.shape)
+	var res *complete.Result
+	var err error
+	if pan := vk.Try(func() {
+		res, err = complete.Complete(complete.CodeBuffer{Content: buf, Dot: dot}, w.ev, complete.Config{})
+	}); pan != "" {
+		c43Report(order, "panic:"+vk.PanicSite(pan), desc+": Complete panicked: "+pan, replay)
+		l.Case("panic")
+		return
+	}
+	ns := ""
+	if i := strings.LastIndex(nw.prefix, ":"); i >= 0 {
+		ns = nw.prefix[:i+1]
+	}
+	dotKind := "in"
+	if pdot == 0 {
+		dotKind = "start"
+	} else if pdot == len(nw.text) {
+		dotKind = "end"
+	}
+	class := fmt.Sprintf("V/w%d/ns-%s/%s/%s", wi, c43NsKind(ns), nw.shape, dotKind)
+	if err != nil || res == nil {
+		w.nj["no_completion_offered"]++
+		l.Case(class + "/none")
+		return
+	}
+	if res.Name != "variable" {
+		w.nj["not_judged_variable_buffer_completed_in_other_context"]++
+		l.Case(class + "/" + res.Name)
+		return
+	}
+	f, t := res.Replace.From, res.Replace.To
+	if f < 0 || t < f || t > len(buf) || (f < len(buf) && !utf8.RuneStart(buf[f])) || (t < len(buf) && !utf8.RuneStart(buf[t])) {
+		c43Report(order, "range-outside-buffer", fmt.Sprintf("%s: replace range [%d,%d) is not a range of the buffer (length %d) on character boundaries", desc, f, t, len(buf)), replay)
+		l.Case(class + "/badrange")
+		return
+	}
+	swallowed := nw.swallow && t == len(buf)
+	insKinds := map[string]bool{}
+	for i, it := range res.Items {
+		ins := it.ToInsert
+		shown := c43ShownText(*res, i)
+		insKinds[c43InsKind(ins)] = true
+		if ns == "" && (shown == "e:" || shown == "E:") {
+			// the two special namespaces themselves are offered as prefixes to continue
+			w.nj["not_judged_special_namespace_prefix_candidate"]++
+			continue
+		}
+		name, ok := c43Unquote(shown)
+		if !ok {
+			w.nj["not_judged_variable_candidate_text_not_understood"]++
+			continue
+		}
+		detail := fmt.Sprintf("ns-%s,typed-%s,candidate-%s", c43NsKind(ns), map[bool]string{false: "bare", true: "quoted"}[nw.quoted], map[string]string{"b": "bare", "s": "quoted", "d": "quoted", "e": "empty"}[c43InsKind(ins)])
+		nb := buf[:f] + ins + buf[t:]
+		want := append([]string{}, wr.before...)
+		if swallowed {
+			nb += wr.closer
+		}
+		tag, mine := tags[ns+name]
+		if !mine || tag == "" || wr.sigil {
+			if wr.sigil && mine && tag != "" && strings.HasPrefix(tag, "[") {
+				// $@x of a one-element list: the element
+				want = append(want, tag[1:len(tag)-1])
+			} else {
+				// a builtin variable or an external command: the completed buffer has to compile
+				var cerr error
+				pan := vk.Try(func() { _, _, cerr = w.ev.Check(parse.Source{Name: "c43", Code: nb}, nil) })
+				var perr error
+				pan2 := vk.Try(func() { _, perr = parse.Parse(parse.Source{Name: "c43", Code: nb}, parse.Config{}) })
+				if pan != "" || pan2 != "" || cerr != nil || perr != nil {
+					c43Report(order, "variable-insert-does-not-resolve:"+detail, fmt.Sprintf("%s: choosing candidate %s (insert %q over [%d,%d)) gives the buffer %q, which does not compile: %v %v %s%s",
+						desc, shown, ins, f, t, nb, perr, cerr, pan, pan2), replay)
+				}
+				continue
+			}
+		} else {
+			want = append(want, tag)
+		}
+		if !swallowed {
+			want = append(want, wr.after...)
+		}
+		r := w.evalCached(nb)
+		got := c43ReprAll(r.outs)
+		if r.pan != "" {
+			c43Report(order, "panic:"+vk.PanicSite(r.pan), fmt.Sprintf("%s: evaluating %q panicked: %s", desc, nb, r.pan), replay)
+		} else if r.err != nil {
+			c43Report(order, "variable-insert-does-not-resolve:"+detail, fmt.Sprintf("%s: choosing candidate %s (insert %q over [%d,%d)) gives the buffer %q, which fails: %v; expected the value of $%s",
+				desc, shown, ins, f, t, nb, r.err, c43Q(ns+name)), replay)
+		} else if !c43EqStrs(got, want) {
+			c43Report(order, "variable-insert-resolves-to-other-value:"+detail, fmt.Sprintf("%s: choosing candidate %s (insert %q over [%d,%d)) gives the buffer %q, which evaluates to %q; expected %q (the value of $%s)",
+				desc, shown, ins, f, t, nb, got, want, c43Q(ns+name)), replay)
+		}
+	}
+	var ks []string
+	for k := range insKinds {
+		ks = append(ks, k)
+	}
+	sort.Strings(ks)
+	l.Case(fmt.Sprintf("%s/n%s/%s", class, c43Bucket(len(res.Items)), strings.Join(ks, "")))
+}
+
+// set / tmp / del arguments are variable names written as words
+func c43RunLvalueCase(l *vk.Local, w *c43Worker, order int64, head string, word c43NameWord, pdot int) {
+	buf := head + " " + word.text
+	dot := len(head) + 1 + pdot
+	replay := map[string]any{"buffer": buf, "dot": dot}
+	desc := fmt.Sprintf("buffer %q dot %d (typed variable name %q in %s style)", buf, dot, word.prefix, word.shape)
+	var res *complete.Result
+	var err error
+	if pan := vk.Try(func() {
+		res, err = complete.Complete(complete.CodeBuffer{Content: buf, Dot: dot}, w.ev, complete.Config{})
+	}); pan != "" {
+		c43Report(order, "panic:"+vk.PanicSite(pan), desc+": Complete panicked: "+pan, replay)
+		l.Case("panic")
+		return
+	}
+	class := fmt.Sprintf("L/%s/%s", head, word.shape)
+	if err != nil || res == nil {
+		w.nj["no_completion_offered"]++
+		l.Case(class + "/none")
+		return
+	}
+	f, t := res.Replace.From, res.Replace.To
+	if f < 0 || t < f || t > len(buf) {
+		c43Report(order, "range-outside-buffer", fmt.Sprintf("%s: replace range [%d,%d) outside the buffer (length %d)", desc, f, t, len(buf)), replay)
+		return
+	}
+	if pdot == 0 && len(word.text) > 0 {
+		l.Case(class + "/abut")
+		return
+	}
+	for i, it := range res.Items {
+		ins := it.ToInsert
+		shown := c43ShownText(*res, i)
+		r := w.evalCached("put " + ins)
+		vs, allStr := c43Strs(r.outs)
+		if r.pan != "" || r.err != nil || !allStr || len(vs) != 1 {
+			c43Report(order, "insert-not-one-string-word:lvalue", fmt.Sprintf("%s: candidate %s inserts %q, which as a word evaluates to %q, error %v %s", desc, shown, ins, r.outs, r.err, r.pan), replay)
+			continue
+		}
+		name := strings.TrimPrefix(vs[0], "@")
+		r2 := w.evalCached("nop $" + c43Q(name))
+		if r2.pan != "" || r2.err != nil {
+			c43Report(order, "lvalue-insert-does-not-name-a-variable:"+head, fmt.Sprintf("%s: candidate %s inserts %q, a word with value %q, but $%s does not resolve: %v %s", desc, shown, ins, vs[0], c43Q(name), r2.err, r2.pan), replay)
+		}
+	}
+	l.Case(fmt.Sprintf("%s/%s/n%s", class, res.Name, c43Bucket(len(res.Items))))
+}
+
+type c43CWrap struct {
+	pre, post, closer string
+}
+
+var c43CWraps = []c43CWrap{
+	{"", "", ""},
+	{"nop | ", " z", ""},
+	{"put (", ")", ")"},
+	{"{ ", " }", " }"},
+	{"nop; ", "", ""},
+	{"nop\n", "\n", ""},
+}
+
+func c43RunCmdCase(l *vk.Local, w *c43Worker, order int64, wi int, word c43NameWord, pdot int, fns, exts map[string]string) {
+	wr := c43CWraps[wi]
+	buf := wr.pre + word.text + wr.post
+	dot := len(wr.pre) + pdot
+	replay := map[string]any{"buffer": buf, "dot": dot}
+	desc := fmt.Sprintf("buffer %q dot %d (typed command name %q in %s style)", buf, dot, word.prefix, word.shape)
+	var res *complete.Result
+	var err error
+	if pan := vk.Try(func() {
+		res, err = complete.Complete(complete.CodeBuffer{Content: buf, Dot: dot}, w.ev, complete.Config{})
+	}); pan != "" {
+		c43Report(order, "panic:"+vk.PanicSite(pan), desc+": Complete panicked: "+pan, replay)
+		l.Case("panic")
+		return
+	}
+	dotKind := "in"
+	if pdot == 0 {
+		dotKind = "start"
+	} else if pdot == len(word.text) {
+		dotKind = "end"
+	}
+	class := fmt.Sprintf("C/w%d/%s/%s", wi, word.shape, dotKind)
+	if err != nil || res == nil {
+		w.nj["no_completion_offered"]++
+		l.Case(class + "/none")
+		return
+	}
+	if res.Name != "command" {
+		w.nj["not_judged_command_buffer_completed_in_other_context"]++
+		l.Case(class + "/" + res.Name)
+		return
+	}
+	f, t := res.Replace.From, res.Replace.To
+	if f < 0 || t < f || t > len(buf) || (f < len(buf) && !utf8.RuneStart(buf[f])) || (t < len(buf) && !utf8.RuneStart(buf[t])) {
+		c43Report(order, "range-outside-buffer", fmt.Sprintf("%s: replace range [%d,%d) is not a range of the buffer (length %d) on character boundaries", desc, f, t, len(buf)), replay)
+		l.Case(class + "/badrange")
+		return
+	}
+	abut := pdot == 0 && len(word.text) > 0
+	swallowed := word.swallow && t == len(buf)
+	insKinds := map[string]bool{}
+	nmine := 0
+	for i, it := range res.Items {
+		ins := it.ToInsert
+		shown := c43ShownText(*res, i)
+		insKinds[c43InsKind(ins)] = true
+		r := w.evalCached("put " + ins)
+		vs, allStr := c43Strs(r.outs)
+		if r.pan != "" {
+			c43Report(order, "panic:"+vk.PanicSite(r.pan), fmt.Sprintf("%s: evaluating inserted text %q panicked: %s", desc, ins, r.pan), replay)
+			continue
+		}
+		if r.err != nil || !allStr || len(vs) != 1 {
+			c43Report(order, "insert-not-one-string-word:command", fmt.Sprintf("%s: candidate %q inserts %q, which as a word evaluates to %d values %q, error %v; expected the single string %q",
+				desc, shown, ins, len(r.outs), vs, r.err, shown), replay)
+			continue
+		}
+		v := vs[0]
+		if v != shown {
+			c43Report(order, "insert-value-differs-from-candidate:command", fmt.Sprintf("%s: candidate %q inserts %q, which evaluates to %q", desc, shown, ins, v), replay)
+			continue
+		}
+		if abut {
+			continue
+		}
+		nb := buf[:f] + ins + buf[t:]
+		if swallowed {
+			nb += wr.closer
+		}
+		if tag, ok := fns[v]; ok {
+			nmine++
+			rr := w.evalCached(nb)
+			got, sok := c43Strs(rr.outs)
+			if rr.pan != "" || rr.err != nil || !sok || !c43EqStrs(got, []string{tag}) {
+				c43Report(order, "command-insert-does-not-run-candidate:function", fmt.Sprintf("%s: choosing candidate %q (insert %q over [%d,%d)) gives the buffer %q, which evaluates to %q, error %v %s; expected the function to run and output %q",
+					desc, shown, ins, f, t, nb, rr.outs, rr.err, rr.pan, tag), replay)
+			}
+		} else if tag, ok := exts[v]; ok {
+			nmine++
+			key := "\x00bytes:" + nb
+			rr, hit := w.cache[key]
+			if !hit {
+				_, bs, e, pan := w.evalBytes(nb)
+				rr = c43EvalRes{[]any{bs}, e, pan}
+				w.cache[key] = rr
+			}
+			if rr.pan != "" || rr.err != nil || rr.outs[0].(string) != tag+"\n" {
+				c43Report(order, "command-insert-does-not-run-candidate:external", fmt.Sprintf("%s: choosing candidate %q (insert %q over [%d,%d)) gives the buffer %q, which writes %q, error %v %s; expected the external command to run and write %q",
+					desc, shown, ins, f, t, nb, rr.outs[0], rr.err, rr.pan, tag+"\n"), replay)
+			}
+		} else if eval.IsBuiltinSpecial[v] || w.ev.Builtin().HasKeyString(v+eval.FnSuffix) || strings.HasSuffix(v, ":") {
+			// builtin commands are not run (side effects); the value is the name of an existing command
+		} else {
+			c43Report(order, "command-candidate-unknown", fmt.Sprintf("%s: candidate %q (insert %q) is neither a special form, a builtin, a function, a namespace nor an external command of the fixture", desc, shown, ins), replay)
+		}
+	}
+	var ks []string
+	for k := range insKinds {
+		ks = append(ks, k)
+	}
+	sort.Strings(ks)
+	l.Case(fmt.Sprintf("%s/n%s/mine%s/%s", class, c43Bucket(len(res.Items)), c43Bucket(nmine), strings.Join(ks, "")))
+}
+
+func c43NameDots(text string) []int {
+	var out []int
+	for p := 0; p <= len(text); p++ {
+		if p == len(text) || utf8.RuneStart(text[p]) {
+			out = append(out, p)
+		}
+	}
+	return out
 }
 
 const c43FileSetup = "var c43v = ''"
@@ -1030,19 +1504,24 @@ func TestVerifC43(t *testing.T) {
 		for i := range allWraps {
 			allWraps[i] = i
 		}
+		baseWraps := []int{0, 1, 2, 3}
 		for k := 0; k <= maxSub; k++ {
 			for _, sub := range c43Subsets(len(c43Core), k) {
 				var ents []c43Ent
 				for _, i := range sub {
 					ents = append(ents, c43Core[i])
 				}
-				dirs = append(dirs, c43DirSpec{ents: ents, wraps: allWraps})
+				wr := allWraps
+				if k >= 2 && k == maxSub {
+					wr = baseWraps // the largest subsets: the four basic contexts only
+				}
+				dirs = append(dirs, c43DirSpec{ents: ents, wraps: wr})
 			}
 		}
 		dirs = append(dirs, c43DirSpec{ents: c43Core, wraps: allWraps})
 		bigWraps := allWraps
 		if !c.Thorough() {
-			bigWraps = []int{0, 1, 2, 3}
+			bigWraps = baseWraps
 		}
 		dirs = append(dirs, c43DirSpec{ents: append(append([]c43Ent{}, c43Core...), c43Ext...), wraps: bigWraps, big: true})
 		for i := range dirs {
@@ -1053,7 +1532,16 @@ func TestVerifC43(t *testing.T) {
 			}
 		}
 		var total int64
+		parts := os.Getenv("VERIF_C43_PARTS") // debugging aid: restrict to some of the parts F, V, C
+		if parts == "" {
+			parts = "FVC"
+		} else {
+			c.Capped("VERIF_C43_PARTS=" + parts)
+		}
 		for _, d := range dirs {
+			if !strings.Contains(parts, "F") {
+				break
+			}
 			if c.TimeUp() {
 				c.Capped("time budget reached before all directories were explored")
 				break
@@ -1063,25 +1551,138 @@ func TestVerifC43(t *testing.T) {
 				t.Fatal(err)
 			}
 			os.Setenv("HOME", here)
-			cases := c43DirCases(root, d)
-			base := int64(d.idx) << 32
-			c.Parallel(len(cases), func(l *vk.Local, i int) {
+			groups := c43DirGroups(root, d)
+			base := int64(d.idx) << 40
+			var cnt atomic.Int64
+			c.Parallel(len(groups), func(l *vk.Local, i int) {
 				w := c43GetWorker(c, l, c43FileSetup)
-				l.Begin(cases[i].buf)
-				c43RunFileCase(c, l, w, base+int64(i), cases[i])
-				l.End()
+				n := c43GroupCases(groups[i], d.wraps, func(k int, cs c43Case) {
+					l.Begin(cs.buf)
+					c43RunFileCase(c, l, w, base+int64(i)<<16+int64(k), cs)
+					l.End()
+				})
+				cnt.Add(int64(n))
 			})
 			c43FlushWorkers(c)
-			total += int64(len(cases))
+			total += cnt.Load()
 			if d.idx == 20 || d.idx == len(dirs)-1 {
-				for i := 0; i < len(cases); i += len(cases)/4 + 1 {
-					c.Sample(map[string]any{"dir": c43EntNames(d.ents), "buffer": cases[i].buf, "dot": cases[i].dot})
+				for i := 0; i < len(groups); i += len(groups)/4 + 1 {
+					c43GroupCases(groups[i], d.wraps[:1], func(k int, cs c43Case) {
+						if k == 1 {
+							c.Sample(map[string]any{"dir": c43EntNames(d.ents), "buffer": cs.buf, "dot": cs.dot})
+						}
+					})
 				}
 			}
 		}
 		os.Chdir(oldwd)
 		c.Set("file_cases", total)
 		c.Set("directories", len(dirs))
+
+		// ---- parts V and C: one fixture, hostile externals in $PATH, controlled environment
+		saved := os.Environ()
+		defer func() {
+			os.Clearenv()
+			for _, kv := range saved {
+				if i := strings.IndexByte(kv[1:], '='); i >= 0 {
+					os.Setenv(kv[:i+1], kv[i+2:])
+				}
+			}
+		}()
+		bin := root + "/bin"
+		os.MkdirAll(bin, 0o755)
+		exts := map[string]string{}
+		for _, n := range c43ExtNames {
+			if err := os.WriteFile(bin+"/"+n, []byte("#!/bin/sh\necho \"x:${0##*/}\"\n"), 0o755); err != nil {
+				t.Fatal(err)
+			}
+			exts[n] = "x:" + n
+			exts["e:"+n] = "x:" + n
+		}
+		os.Clearenv()
+		os.Setenv("PATH", bin)
+		os.Setenv("HOME", root)
+		for _, n := range c43EnvNames {
+			os.Setenv(n, "v:E:"+n)
+		}
+		os.Chdir(root + "/D000")
+		setup := c43VCSetup()
+		tags := c43VarTags()
+		fns := map[string]string{}
+		for _, n := range c43FnNames {
+			fns[n] = "f:" + n
+		}
+		for _, n := range c43NsFns {
+			fns["m:"+n] = "f:m:" + n
+		}
+		var qnames []string
+		for q := range tags {
+			qnames = append(qnames, q)
+		}
+		sort.Strings(qnames)
+		var vwords []c43NameWord
+		for _, p := range c43RunePrefixes(qnames) {
+			vwords = append(vwords, c43NameWords(p)...)
+		}
+		var vcnt, lcnt, ccnt atomic.Int64
+		c.Parallel(len(vwords), func(l *vk.Local, i int) {
+			w := c43GetWorker(c, l, setup)
+			k := int64(0)
+			for wi := range c43VWraps {
+				for _, pd := range c43NameDots(vwords[i].text) {
+					l.Begin(vwords[i].text)
+					c43RunVarCase(l, w, 1<<60+int64(i)<<16+k, wi, vwords[i], pd, tags)
+					l.End()
+					k++
+				}
+			}
+			vcnt.Add(k)
+			for _, head := range []string{"set", "tmp", "del"} {
+				for _, pd := range c43NameDots(vwords[i].text) {
+					c43RunLvalueCase(l, w, 1<<60+1<<59+int64(i)<<16+k, head, vwords[i], pd)
+					k++
+					lcnt.Add(1)
+				}
+			}
+		})
+		var cnames []string
+		for q := range fns {
+			cnames = append(cnames, q)
+		}
+		for q := range exts {
+			cnames = append(cnames, q)
+		}
+		cnames = append(cnames, "put", "if", "nop", "m:sub:")
+		sort.Strings(cnames)
+		var cwords []c43NameWord
+		for _, p := range c43RunePrefixes(cnames) {
+			if c43Typable(p, false) {
+				cwords = append(cwords, c43NameWord{p, false, false, p, "raw"})
+			}
+			for _, nw := range c43NameWords(p) {
+				if nw.quoted {
+					cwords = append(cwords, nw)
+				}
+			}
+		}
+		c.Parallel(len(cwords), func(l *vk.Local, i int) {
+			w := c43GetWorker(c, l, setup)
+			k := int64(0)
+			for wi := range c43CWraps {
+				for _, pd := range c43NameDots(cwords[i].text) {
+					l.Begin(cwords[i].text)
+					c43RunCmdCase(l, w, 1<<61+int64(i)<<16+k, wi, cwords[i], pd, fns, exts)
+					l.End()
+					k++
+				}
+			}
+			ccnt.Add(k)
+		})
+		c43FlushWorkers(c)
+		os.Chdir(oldwd)
+		c.Set("variable_cases", vcnt.Load())
+		c.Set("lvalue_cases", lcnt.Load())
+		c.Set("command_cases", ccnt.Load())
 
 		// report, smallest case first
 		var vs []c43Viol
@@ -1092,6 +1693,5 @@ func TestVerifC43(t *testing.T) {
 		for _, v := range vs {
 			c.Violate(v.key, v.msg, v.replay)
 		}
-		_ = vals.ReprPlain
 	})
 }
